@@ -58,24 +58,71 @@ def shape_args(L, shape, dims=3):
 
 
 def signature(L, rec):
-    """What a shape does, as comparable text."""
+    """What a shape does: ('raise', cls, site) or ('return', items) with items holding polynomials / tags."""
     I = L.I
     saved = I.heap
     I.heap = rec["heap"]
     try:
         if rec["outcome"] == "raise":
             return ("raise", rec["value"].cls, rec["site"][0] if rec["site"] else "")
-        out = ["return"]
+        out = []
         for n in rec["parametric"]:
-            out.append(("curve", tuple(keys(row(n["theta"])) or [I.tag(n["theta"])]), I.tag(n["length"]),
-                        tuple(sorted((k, I.tag(v)) for k, v in n["kwargs"].items() if k != "**"))))
+            r = row(n["theta"])
+            ln = n["length"]
+            out.append(("curve", tuple(r) if r is not None else I.tag(n["theta"]), ln.p if isinstance(ln, Num) else I.tag(ln),
+                        tuple(sorted((k, v.p if isinstance(v, Num) else I.tag(v)) for k, v in n["kwargs"].items() if k != "**"))))
         for e in rec["ext"]:
             c = e.data.get("callee")
             if isinstance(c, ExtV) and c.name.endswith("CubicSpline"):
                 out.append(("spline", tuple(I.tag(a) for a in e.data["args"])))
-        return tuple(out)
+        return ("return", tuple(out))
     finally:
         I.heap = saved
+
+
+def _subst(x, subs):
+    if isinstance(x, Poly):
+        for sym, val in subs:
+            x = x.subs(sym, val)
+        return x.key()
+    if isinstance(x, tuple):
+        return tuple(_subst(y, subs) for y in x)
+    return x
+
+
+def equalities(I, facts):
+    """Substitutions s := e implied by the path's equality facts (p == 0 with p linear in a plain input symbol s)."""
+    subs = []
+    for k, v in facts.items():
+        if (k.startswith("cmp:Eq:") and v is True) or (k.startswith("sign:") and v == 0):
+            q = I.key_poly.get(k.split(":", 2)[2] if k.startswith("cmp:") else k[5:])
+            if q is None:
+                continue
+            for sym, val in subs:
+                q = q.subs(sym, val)
+            for s_ in sorted(q.symbols(), key=lambda n: (not n.startswith("t."), not n.startswith("u."), n)):
+                if "(" in s_ or s_ == "theta":
+                    continue
+                c = q.coeff_of(s_)
+                rest = q.without(s_)
+                if c.is_const() and c.const_value() != 0 and s_ not in rest.symbols():
+                    subs.append((s_, rest * Poly.const(-1 / c.const_value())))
+                    break
+    return subs
+
+
+def first_difference(a, b):
+    if isinstance(a, tuple) and isinstance(b, tuple) and len(a) == len(b):
+        for x, y in zip(a, b):
+            d = first_difference(x, y)
+            if d is not None:
+                return d
+        return None
+    return None if a == b else (a, b)
+
+
+def compatible(fa, fb):
+    return all(fb.get(k, v) == v for k, v in fa.items())
 
 
 def shape_equivalence(check, L):
@@ -84,25 +131,33 @@ def shape_equivalence(check, L):
         for dims in ((3, 2) if shape in ("arc", "helix") else (3,)):
             for direction in ("CLOCKWISE", "COUNTER"):
                 mk = shape_args(L, shape, dims)
-                sigs = {}
+                recs = {}
                 for mode in ("ABSOLUTE", "RELATIVE"):
-                    recs = L.run(shape, mode, direction, mk)
-                    n += len(recs)
-                    sigs[mode] = {signature(L, r) for r in recs}
-                    if not any(s[0] == "return" for s in sigs[mode]):
+                    rs = L.run(shape, mode, direction, mk)
+                    n += len(rs)
+                    recs[mode] = [(signature(L, r), r["facts"]) for r in rs]
+                    if not any(s[0] == "return" for s, _ in recs[mode]):
                         check.floor(False, f"C11.R1: {shape} ({mode}, {direction}) has no accepted abstract path")
                 label = f"{shape}({dims}D target, {direction})"
-                if sigs["ABSOLUTE"] == sigs["RELATIVE"]:
-                    check.ok("R1", f"{label}: {len(sigs['ABSOLUTE'])} behaviours identical in both modes")
-                else:
-                    only_abs = sigs["ABSOLUTE"] - sigs["RELATIVE"]
-                    only_rel = sigs["RELATIVE"] - sigs["ABSOLUTE"]
-                    a = next(iter(sorted(only_abs, key=str)), None)
-                    r = next(iter(sorted(only_rel, key=str)), None)
-                    check.violation("R1", f"{shape}:mode-dependent",
-                                    f"{label}: for the same absolute waypoints the shape behaves differently in the two distance modes; "
-                                    f"absolute mode only: {str(a)[:300]} ... relative mode only: {str(r)[:300]}",
-                                    ["the curve handed to parametric() (or the rejection) depends on the distance mode"])
+                # every pair of behaviours whose path conditions can hold together must coincide under those conditions
+                pairs = bad = 0
+                for sa, fa in recs["ABSOLUTE"]:
+                    for sr, fr in recs["RELATIVE"]:
+                        if not compatible(fa, fr):
+                            continue
+                        pairs += 1
+                        subs = equalities(L.I, dict(fa, **fr))
+                        if _subst(sa, subs) != _subst(sr, subs):
+                            bad += 1
+                            da, dr = first_difference(_subst(sa, subs), _subst(sr, subs))
+                            cond = {k: v for k, v in dict(fa, **fr).items() if k.startswith(("cmp:", "sign:", "isclose:"))}
+                            check.violation("R1", f"{shape}:mode-dependent",
+                                            f"{label}: for the same absolute waypoints the shape behaves differently in the two distance modes "
+                                            f"when {cond or 'always'}: absolute mode gives {str(da)[:300]} where relative mode gives {str(dr)[:300]}",
+                                            ["the curve handed to parametric() (or the rejection) depends on the distance mode"])
+                if pairs and not bad:
+                    check.ok("R1", f"{label}: {pairs} jointly satisfiable pairs of behaviours coincide in both modes")
+                check.floor(pairs > 0, f"C11.R1: {label}: no pair of behaviours to compare")
     return n
 
 
